@@ -21,6 +21,20 @@ tie    : K  exact stream: the three construct_* routines are called directly on 
             centred samples projected, rotation pairs X -> R X (embedding unchanged up to column
             sign, projection matrix rotated); LPP over kernel widths spanning 40 decades of heat
             weights; eigen_method Dense / not given / Randomized (refused).
+         Wave 3 — large OFFSET relative to the spread (offset / spread 1e3 .. 1e12), common and per feature:
+         K: offset a power of two, spread small integers, sizes chosen (k_exact_ok) so that the arithmetic of the code
+            (LLTSA: mean first, then everything from x - mean) is EXACT in binary64 while the intermediate sums of an
+            expanded / hoisted formula (sum x x^T - N m m^T) exceed 2^53: such a formula shows as an exact mismatch.
+            Theorem lltsa_rhs_one_pass_equal: both formulas are EQUAL over an exact field, so the exact model cannot
+            tell them apart; the distinction is purely numerical and is decided by these inputs and by
+         E: translated features x = x0 + t (exact translation on a dyadic grid, |t| up to 1e8 spreads) with the kernel
+            / distance callbacks on x0 (all ratios) or on x0 + t (ratios <= 1e4); the pencil recorded inside embed()
+            is compared with the plain-loop reference norm-wise relative to |X| |M| |X|^T (LLTSA: centred features);
+            LLTSA: projection matrix and embedding equal those of the untranslated twin up to column sign
+            (lltsa_translation_invariant); NPE / LPP (not translation invariant): residual / Rayleigh / Gram against
+            the reference pencil of the same translated data, tolerances relative to cond(X B X^T);
+         also: exact duplicate samples, embed() called inside an OpenMP parallel region, feature values whose squares
+         overflow (an exception or a matrix, never a crash).
 search : larger budgets of the same streams (the K stream's spec check is itself exact).
 """
 import hashlib
@@ -58,6 +72,11 @@ TRUSTED = [
     "Pencil_Model.embed_front (dispatch of generalized_eigendecomposition on eigen method / strategies) is hand-modelled; "
     "tied by: Randomized is refused with unsupported_method_error, Dense / default reach the dense branch with "
     "SmallestEigenvalues (recorded call chain); ARPACK / ViennaCL builds are not modelled",
+    "large-offset exact cases: checks/c10.py k_exact_ok (a Python bound: sum of |terms| / common granularity < 2^53 for "
+    "every sum the CURRENT formulas form) decides which offsets are exact in binary64; the one-pass and the two-pass "
+    "right-hand side of LLTSA are equal over every field (theorem lltsa_rhs_one_pass_equal), so that the exact model "
+    "cannot separate them: only binary64 inputs where one is exact and the other is not, and the tolerance stream "
+    "(pencil comparison 1e-10 norm-wise relative to |X| |M| |X|^T, translation pairs), do",
     "extraction (ExtrOcamlBasic only) + OCaml 4.13.1 + coq/extract/c10_driver.ml (parsing/printing)",
     "harness/c10.cpp (drivers, plain-loop reference arithmetic in command R); g++ ASan/UBSan/_GLIBCXX_ASSERTIONS",
 ]
@@ -66,12 +85,16 @@ ASSUMPTIONS = [
     "public-API stream: N > D (pencil right-hand sides nonsingular), eigenvalue gaps > 1e-3 relative for the "
     "rotation comparison (inside a numerically multiple eigenvalue the basis is free)",
     "public-API comparisons are made for cond(X B X^T) <= 1e9 only, with tolerances growing like 1e4*eps*cond",
+    "translated public-API cases: NPE / LPP beyond cond(X B X^T) = 1e9 (offset / spread >~ 1e4) are judged only on "
+    "the recorded pencil, the stored mean and embedding = P^T (x - mean); non-finite answers are not judged when "
+    "cond(X B X^T) > 1e13 (right-hand side singular in binary64); LLTSA is judged in full at every offset",
+    "feature values whose squares overflow binary64: any documented exception or any matrix is accepted",
     "eigen_method: Dense, not given (= Dense in a build without ARPACK) and Randomized (refused by the library for "
     "generalised problems with unsupported_method_error: accepted as a refusal, any returned result is judged like "
     "the others); the ARPACK path is not built here",
 ]
 
-EM_NAMES = ("", ", eigen_method not given", ", eigen_method = Randomized")
+EM_NAMES = ("", ", eigen_method not given", ", eigen_method = Randomized", ", called inside an OpenMP parallel region")
 RES_TOL = 1e-6      # relative generalised-eigen residual (defects F9/F25 give 1e-2 .. 1)
 RQ_TOL = 1e-6       # Rayleigh quotient against the reference spectrum, relative to its spread
 GRAM_TOL = 1e-6
@@ -866,6 +889,13 @@ def gen_e_case(rng, method, big):
                 + noise * rng.gauss(0, 1) + off[f]
             row.append(v)
         X.append(row)
+    # exact DUPLICATE samples in otherwise generic data (Wave 3)
+    dup = 0
+    if rng.random() < 0.15 and N >= D + 8:
+        dup = rng.randint(1, 3)
+        for _ in range(dup):
+            a, b = rng.sample(range(N), 2)
+            X[b] = list(X[a])
     width = rng.choice([0.5, 2.0, 10.0, 100.0])
     # the property is about ALL feature data: the same data in other units (powers of two: exact rescaling)
     scale = rng.choice([1.0, 1.0, 1.0, 2.0 ** -17, 2.0 ** -10, 2.0 ** 10])
@@ -874,7 +904,7 @@ def gen_e_case(rng, method, big):
     nshift = rng.choice([1e-9, 1e-6, 1e-3])
     kshift = rng.choice([1e-3, 1e-2])
     return {"kind": "E", "method": method, "N": N, "D": D, "d": d, "k": k, "width": hexf(width),
-            "nshift": hexf(nshift), "kshift": hexf(kshift), "offset": offk, "scale": scale,
+            "nshift": hexf(nshift), "kshift": hexf(kshift), "offset": offk, "scale": scale, "duplicates": dup,
             "X": [[hexf(v) for v in row] for row in X]}      # sample major
 
 
@@ -1089,7 +1119,7 @@ def eval_e(ctx, exe1, exe2, cases, stats, rng, rotate_every=2):
             # translation pair: the same case on the untranslated features (kernel data: the untranslated ones)
             lines.append(e_line(c, c["X0"], None))
             owner.append((i, "twin"))
-        if rotate_every and i % rotate_every == 0 and c["D"] >= 2 and c.get("X0") is None:
+        if rotate_every and i % rotate_every == 0 and c["D"] >= 2 and c.get("X0") is None and not c.get("huge"):
             R = c.get("R")
             if R is None:
                 R = random_orthogonal(rng, c["D"])
@@ -1116,6 +1146,14 @@ def eval_e(ctx, exe1, exe2, cases, stats, rng, rotate_every=2):
             # the library states that the Randomized eigensolver does not handle generalised problems
             # (unsupported_method_error): an explicit refusal, not a wrong answer
             stats["e_randomized_refused"] += 1
+            continue
+        if c.get("huge"):
+            # overflowing intermediate squares: an exception (E ERR ...) or a matrix are both documented outcomes
+            if line.startswith("E ok") or line.startswith("E ERR") or line.startswith("E unsupported"):
+                stats["e_huge_exception" if not line.startswith("E ok") else "e_huge_matrix"] += 1
+            else:
+                ctx.violation(c, "tapkee::embed(%s) on huge finite feature values: unparsable outcome %s"
+                              % (c["method"], line[:200]))
             continue
         if not line.startswith("E ok"):
             ctx.violation(c, "tapkee::embed(%s%s) failed on valid data%s: %s"
@@ -1406,7 +1444,7 @@ def new_stats():
     return {"malformed": 0, "spec_ok": 0, "spec_fail": 0, "other_triangle_differs": 0, "g_ok": 0,
             "select_bad": 0, "e_ok": 0, "e_fail": 0, "ref_failed": 0, "rot_ok": 0, "rot_fail": 0,
             "j_ok": 0, "j_fail": 0, "chain_ok": 0, "chain_bad": 0, "chain_missing": 0, "rot_cols": 0, "rot_skipped_gap": 0, "rot_skipped_unstable_M": 0, "rot_max_M_reldiff": 0.0, "rot_min_cos": 1.0, "e_max_res": 0.0, "e_max_res_case": "", "e_max_condB": 0.0, "e_skipped_illconditioned": 0, "e_ok_structural_only": 0, "e_randomized_refused": 0, "triangle_votes": {},
-            "pencil_judged": 0, "pencil_max_err": 0.0, "e_singular_rhs": 0, "trans_ok": 0, "trans_fail": 0, "trans_cols": 0,
+            "e_huge_exception": 0, "e_huge_matrix": 0, "pencil_judged": 0, "pencil_max_err": 0.0, "e_singular_rhs": 0, "trans_ok": 0, "trans_fail": 0, "trans_cols": 0,
             "trans_skipped_gap": 0, "trans_skipped_unstable_M": 0, "trans_min_cos": 1.0}
 
 
@@ -1449,12 +1487,24 @@ def make_cases(rng, nk, ng, ne, big=False):
                     ec.append(gen_e_offset_case(rng, m, ratio, True, per_feature=(rnd % 2 == 1)))
         # the other values of eigen_method: not given (library default) and Randomized (must be refused, or right)
         for m in METHODS:
-            for em in (1, 2):
+            for em in (1, 2, 3):
                 for _ in range(max(1, ne // 10)):
                     c = gen_e_case(rng, m, False)
                     c["em"] = em
                     c["gen"] = "latent/em=%d" % em
                     ec.append(c)
+        # HUGE finite magnitudes (Wave 3): squares of the feature values overflow binary64.  The outcome must be a
+        # documented exception or a matrix (both accepted, nothing numerical is judged); a crash, std::terminate, a
+        # sanitizer report or a hang is a violation like everywhere else
+        for m in METHODS:
+            for _ in range(max(1, ne // 20)):
+                c = gen_e_case(rng, m, False)
+                up = 2.0 ** rng.choice([520, 600, 900])
+                c["X"] = [[hexf(parse_hex(x) / c["scale"] * up) for x in row] for row in c["X"]]
+                c["scale"] = up
+                c["huge"] = True
+                c["gen"] = "huge"
+                ec.append(c)
     return kc, gc, ec
 
 
@@ -1525,16 +1575,23 @@ def run(ctx):
     ctx.finish(
         evaluations=n, distinct_nontrivial=len(distinct),
         rule="K: exact dyadic cases per method x generator kind (plain, correlated features, symmetric W, "
-             "alignment-like W with zero row/column sums, empty W, zero X, malformed index, large = N 16..64 and D 17..33), every case a second time "
+             "alignment-like W with zero row/column sums, empty W, zero X, malformed index, large = N 16..64 and D 17..33, "
+             "offset-common / offset-per-feature = offset +-m 2^p with p up to 44 (LLTSA) / 20 (NPE, LPP) and spread 1..8, exact in binary64 for the code's formulas), every case a second time "
              "with W/L, the degree vector and the features multiplied by powers of two in 2^-70..2^70 (+scaled); "
              "non-trivial = N>=2, D>=2, nnz>=1, distinct by hash. G: random pencils whose two triangles hold different symmetric "
              "matrices. E: public-API runs (latent 3-d structure, correlated noise, offsets 0..20, D 2..8 quick / "
-             "..30 thorough), every second one also on R X. J: exact compute_mean/project cases (N = 2^k, dyadic X "
-             "and P). evaluations = K + G + J + E(+rotated) driver runs.",
+             "..30 thorough, exact duplicate samples in 15 %), every second one also on R X; offset-* = exact translates by "
+             "1e3..1e8 spreads (LLTSA also on the untranslated twin), em=3 = called inside an OpenMP parallel region, "
+             "huge = values times 2^520..2^900. J: exact compute_mean/project cases (N = 2^k, dyadic X "
+             "and P, 30 % with offsets 2^20..2^40). evaluations = K + G + J + E(+rotated, +twin) driver runs.",
         samples=samples, histogram={"generators": hist, "stats": stats},
         trusted_base=TRUSTED, assumptions=ASSUMPTIONS,
         extra={"tolerances": {"chain": CHAIN_TOL, "cond_max": COND_MAX, "residual": RES_TOL, "rayleigh": RQ_TOL, "gram": GRAM_TOL, "embedding": EMB_TOL,
                               "rotation_1_minus_cos": ROT_TOL, "min_relative_gap": GAP_MIN},
+               "pencil_tolerance": PENCIL_TOL, "singular_cond": SINGULAR_COND,
+               "numerical_only_distinctions": "lltsa_rhs_one_pass_equal: sum x x^T - N m m^T = sum (x-m)(x-m)^T over every "
+                                              "field; the exact model cannot separate them, the large-offset inputs of the K "
+                                              "stream (exact for the centred form only) and the tolerance stream decide",
                "exact_stream_cases": len(kc), "tolerance_stream_cases": len(ec) + len(gc)})
 
 
